@@ -175,18 +175,28 @@ def propose (x : Gen) (w : World) : Op × Gen :=
   let (pk, x) := pickLive x w
   match pk with
   | none => (.clear 0, x)
-  | some (k, st) =>
+  | some (k_, st) =>
+  let k := k_
   let ns := st.subs.length
   if ns == 0 then
     let (n, x) := x.below 4
     let (c, x) := x.below 3
     (if c == 0 then .addSub k else .setNumSubs k (n + 1), x)
   else
-  let (r, x) := x.below 100
-  let (s, x) := x.below ns
+  let (r0, x) := x.below 100
+  let (s0, x) := x.below ns
+  -- allocation phase: while little has been allocated and some subsystem can still allocate, mostly allocate
+  let low := (mapI (fun i (sb : Sub) => (i, sb)) st.subs).filter (fun (_, sb) => sb.cur < 2)
+  let (li, x) := x.below (max 1 low.length)
+  let (ph, x) := x.below 100
+  let allocPhase := !low.isEmpty && st.numCE < 2 * ns + 2 && ph < 55
+  let s := if allocPhase then (low.getD li (0, default)).1 else s0
+  let r := if allocPhase then 22 + r0 % 29 else r0
   let sb := st.subs.getD s {}
+  -- allocation attempts at a stage where they throw are kept, but rare
+  let r := if !allocPhase && 22 ≤ r && r < 51 && sb.cur ≥ 2 && ph ≥ 8 then (if ph < 60 then 55 else 75) else r
   let wantProgress := x.goal > st.sys
-  if (wantProgress && r < 70) || r < 18 then
+  if (wantProgress && r < 80 && !allocPhase) || r < 18 then
     let (o, x) := progressOp x st
     match o with
     | some o => (.on k o, x)
@@ -231,26 +241,47 @@ def propose (x : Gen) (w : World) : Op × Gen :=
     let (g, x) := x.below 7
     (.on k (if c == 0 then .allocQErr s (n + 1) else if c == 1 then .allocUErr s (n + 1)
             else if c == 2 then .allocUDotErr s (n + 1) else .allocTrig s (3 + g) (n + 1)), x)
-  else if r < 62 then       -- mark / unmark / markDVUpd
-    let (c, x) := x.below (max 1 sb.ces.length)
-    let (a, x) := x.below 5
-    let (d, x) := x.below (max 1 sb.dvs.length)
-    (.on k (if a == 0 then .unmark s c else if a == 1 then .markDVUpd s d else .mark s c), x)
+  else if r < 62 then       -- mark / unmark / markDVUpd  (chosen among entries for which the call is legal)
+    let allc := st.allCEs
+    let markable := allc.filter (fun (k, e) => (st.subs.getD k.1 {}).cur + 1 ≥ e.dep)
+    let useful := markable.filter (fun (k, e) => !st.isRealized k && (st.subs.getD k.1 {}).cur ≥ e.dep)
+    let autos := st.allDVKeys.filter (fun k => match st.dv? k with | some d => d.auto.isSome | none => false)
+    let (a, x) := x.below 8
+    if a == 0 && !allc.isEmpty then
+      let (i, x) := x.below allc.length
+      let k := (allc.getD i ((0, 0), default)).1
+      (.on k_ (.unmark k.1 k.2), x)
+    else if a == 1 && !autos.isEmpty then
+      let (i, x) := x.below autos.length
+      let k := autos.getD i (0, 0)
+      (.on k_ (.markDVUpd k.1 k.2), x)
+    else
+      let pool := if a < 6 && !useful.isEmpty then useful else markable
+      if pool.isEmpty then (.on k_ (.allocCE s 4 10 7), x) else
+      let (i, x) := x.below pool.length
+      let k := (pool.getD i ((0, 0), default)).1
+      (.on k_ (.mark k.1 k.2), x)
   else if r < 66 then
-    let (c, x) := x.below (max 1 sb.ces.length)
+    let allc := st.allCEs
+    if allc.isEmpty then (.on k_ (.allocCE s 5 5 9), x) else
+    let (i, x) := x.below allc.length
+    let k := (allc.getD i ((0, 0), default)).1
     let (a, x) := x.below 3
     let (v, x) := x.below 50
-    (.on k (if a == 0 then .setCE s c (Int.ofNat v + 100) else .getCE s c), x)
+    (.on k_ (if a == 0 then .setCE k.1 k.2 (Int.ofNat v + 100) else .getCE k.1 k.2), x)
   else if r < 72 then
-    let (d, x) := x.below (max 1 sb.dvs.length)
+    let alld := st.allDVKeys
+    if alld.isEmpty then (.on k_ (.allocDV s 6 3), x) else
+    let (i, x) := x.below alld.length
+    let k := alld.getD i (0, 0)
     let (v, x) := x.below 50
-    (.on k (.setDV s d (Int.ofNat v + 200)), x)
+    (.on k_ (.setDV k.1 k.2 (Int.ofNat v + 200)), x)
   else if r < 82 then       -- continuous variables, time, weights
     let (a, x) := x.below 17
     let (i, x) := x.below 4
     let (v, x) := x.below 20
     let (wr, x) := x.below 3
-    let wv : Option (Nat × Int) := if wr == 0 then none else some (i, Int.ofNat v - 10)
+    let wv : Option (Nat × Int) := if wr == 0 then none else some (i % (max 1 (max st.q.length (max st.u.length st.z.length))), Int.ofNat v - 10)
     let o : SOp := match a with
       | 0 => .updQ wv | 1 => .updU wv | 2 => .updZ wv
       | 3 => .updQsub s wv | 4 => .updUsub s wv | 5 => .updZsub s wv
@@ -260,18 +291,21 @@ def propose (x : Gen) (w : World) : Op × Gen :=
     (.on k o, x)
   else if r < 86 then
     let (g, x) := x.below 9
+    let (lo, x) := x.below 5
     let (a, x) := x.below 2
-    (.on k (if a == 0 then .invalAll (g + 1) else .invalCache (g + 1)), x)
+    let g := if lo == 0 then g + 1 else 4 + g % 6       -- mostly run-time stages
+    (.on k (if a == 0 then .invalAll g else .invalCache g), x)
   else if r < 89 then (.on k .autoUpdate, x)
   else if r < 95 then       -- several State objects
     let (a, x) := x.below 7
     let (j, x) := x.below (max 1 w.sts.length)
+    let (cl, x) := x.below 4
     (match a with
       | 0 | 1 => .copyNew k
       | 2 | 3 => .copyAssign k j
       | 4 => .moveNew k
       | 5 => .moveAssign k j
-      | _ => .clear j, x)
+      | _ => if cl == 0 then .clear j else .copyAssign j k, x)
   else if r < 97 then
     let (a, x) := x.below 2
     (if a == 0 then .snap k else .diff k, x)
@@ -295,9 +329,10 @@ def nextOp (x : Gen) (w : World) : Op × Gen :=
 def genSeq (out : IO.FS.Stream) (seed : Nat) (idx : Nat) (len : Nat) (full : Bool) : IO Unit := do
   let mut x : Gen := { g := ⟨UInt64.ofNat (seed * 1000003 + idx * 7919 + 17)⟩ }
   let (ns, x1) := x.below 4
-  x := x1
+  let (gl, x1) := x1.below 14
+  x := { x1 with goal := if gl < 9 then gl + 1 else 0 }
   let mut w : World := { sts := [some { subs := List.replicate (ns + 1) {} }] }
-  out.putStrLn s!"I reset {ns + 1}"
+  out.putStrLn (s!"I reset {ns + 1}" ++ (if full then " full" else ""))
   out.putStrLn "O res ok"
   for l in obsLines w [0] full do out.putStrLn l
   for _ in [0:len] do
